@@ -128,13 +128,13 @@ def main():
         P.ensure_rsdump()
         exe, build_s = P.build_compiler()
         corpus = P.Corpus(scratch, exe, seed, tier, want_random=True)
-        repo_names = corpus.add_repo_theories(scratch, exe) if tier == "thorough" and not cfg.get("selfcomp") else []
+        repo_names = corpus.add_repo_theories(scratch, exe) if tier == "thorough" and prop in ("C01", "C02", "C04") else []
     except P.Inconclusive as ex:
         print("INCONCLUSIVE: %s" % ex)
         sys.exit(2)
     known = [k for k in P.load_known() if k["property"] == prop and k.get("status") != "fixed"]
     solver = os.environ.get("VERIF_SOLVER", "kissat")
-    timeout = 300 if tier == "quick" else 900
+    timeout = 300 if tier == "quick" else 600
     tasks = []
     schemas = {}
     for name, pinfo in sorted(corpus.programs.items()):
@@ -215,7 +215,8 @@ def main():
     # of them is recorded as undecided (nothing is claimed for it); it does not make the check inconclusive
     def is_limit(r):
         # kernels must be decided; sampled programs (random, repository theories) that run into the limits are listed as undecided
-        return (corpus.programs[r["program"]].get("kind") in ("repo", "random") or r.get("optional")) and any(w in r.get("reason", "") for w in ("Timeout", "timeout", "MemoryError", "time limit"))
+        # kernels must be decided at U = 2; everything else that runs into the limits is listed as undecided
+        return (corpus.programs[r["program"]].get("kind") in ("repo", "random") or r.get("optional") or r["U"] >= 3) and any(w in r.get("reason", "") for w in ("Timeout", "timeout", "MemoryError", "time limit"))
     undecided = [r for r in results if r["status"] == "inconclusive" and is_limit(r)]
     inconclusive = [r for r in results if r["status"] == "inconclusive" and not is_limit(r)]
     failed = [r for r in results if r["status"] == "failed"]
